@@ -143,89 +143,20 @@ inductive Pc where
   deriving DecidableEq, Repr, Inhabited
 
 structure St where
+  /-- number of threads at each program point -/
+  cnt : Pc → Nat
   /-- semaphores, 1 = taken -/
-  m1 : Nat
-  m2 : Nat
-  m3 : Nat
-  w : Nat
-  r : Nat
-  readcount : Int
-  writecount : Int
+  (m1 m2 m3 w r : Nat)
+  (readcount writecount : Int)
   /-- `FFT_LEN` -/
   flen : Int
   /-- length the tables are built for (`4 * LSX_FFT_BR[0]`, 0 while there are none) -/
   tab : Int
-  gw : Nat
-  gr : Nat
-  nInit : Nat
-  nReset : Nat
-  nStore : Nat
+  (gw gr nInit nReset nStore : Nat)
   /-- `len` of the threads at `b0` -/
   pend : List Int
   /-- `len` of the threads at `wt` -/
   wtl : List Int
-  (idle i0 i1 i2 i3 i4 i5 i6 r1 r2 r3 r4 : Nat)
-  (r5 r6 r7 r8 c0 rd x1 x2 x3 x4 u1 u2 : Nat)
-  (u3 u4 w1 w2 w3 w4 w5 c1 b0 wt y1 y2 : Nat)
-  (y3 y4 y5 d1 d2 d3 d4 d5 e1 e2 e3 e4 : Nat)
-  (e5 e6 e7 e8 c2 : Nat)
-  deriving Repr, DecidableEq
-
-/-- number of threads at a program point -/
-def St.cnt (s : St) : Pc → Nat
-  | .idle => s.idle
-  | .i0 => s.i0
-  | .i1 => s.i1
-  | .i2 => s.i2
-  | .i3 => s.i3
-  | .i4 => s.i4
-  | .i5 => s.i5
-  | .i6 => s.i6
-  | .r1 => s.r1
-  | .r2 => s.r2
-  | .r3 => s.r3
-  | .r4 => s.r4
-  | .r5 => s.r5
-  | .r6 => s.r6
-  | .r7 => s.r7
-  | .r8 => s.r8
-  | .c0 => s.c0
-  | .rd => s.rd
-  | .x1 => s.x1
-  | .x2 => s.x2
-  | .x3 => s.x3
-  | .x4 => s.x4
-  | .u1 => s.u1
-  | .u2 => s.u2
-  | .u3 => s.u3
-  | .u4 => s.u4
-  | .w1 => s.w1
-  | .w2 => s.w2
-  | .w3 => s.w3
-  | .w4 => s.w4
-  | .w5 => s.w5
-  | .c1 => s.c1
-  | .b0 => s.b0
-  | .wt => s.wt
-  | .y1 => s.y1
-  | .y2 => s.y2
-  | .y3 => s.y3
-  | .y4 => s.y4
-  | .y5 => s.y5
-  | .d1 => s.d1
-  | .d2 => s.d2
-  | .d3 => s.d3
-  | .d4 => s.d4
-  | .d5 => s.d5
-  | .e1 => s.e1
-  | .e2 => s.e2
-  | .e3 => s.e3
-  | .e4 => s.e4
-  | .e5 => s.e5
-  | .e6 => s.e6
-  | .e7 => s.e7
-  | .e8 => s.e8
-  | .c2 => s.c2
 
 /-- what the scheduler harness can see of a step: nothing (`tau`), a P (`omp_set_lock` returned), a V (`omp_unset_lock`),
     or an `omp_init_lock` -/
@@ -472,152 +403,162 @@ def Label.vis : Label → Vis
   | .e8 => .v .m3
   | _ => .tau
 
-/-- enabling condition: a thread is at the source point, and the C condition / semaphore allows the step -/
-def guard (l : Label) (s : St) : Prop :=
+/-- the C condition / semaphore state that allows the step -/
+def guardX (l : Label) (s : St) : Prop :=
   match l with
-  | .call => 0 < s.idle
-  | .i0_warm => 0 < s.i0 ∧ 0 ≤ s.flen
-  | .i0_cold => 0 < s.i0 ∧ s.flen < 0
-  | .ini1 => 0 < s.i1
-  | .ini2 => 0 < s.i2
-  | .ini3 => 0 < s.i3
-  | .ini4 => 0 < s.i4
-  | .ini5 => 0 < s.i5
-  | .ini6 => 0 < s.i6
-  | .r1 => 0 < s.r1 ∧ s.m3 = 0
-  | .r2 => 0 < s.r2 ∧ s.r = 0
-  | .r3 => 0 < s.r3 ∧ s.m1 = 0
-  | .r4_first => 0 < s.r4 ∧ s.readcount = 0
-  | .r4_more => 0 < s.r4 ∧ s.readcount ≠ 0
-  | .r5 => 0 < s.r5 ∧ s.w = 0
-  | .r6 => 0 < s.r6
-  | .r7 => 0 < s.r7
-  | .r8 => 0 < s.r8
-  | .c0_ok => 0 < s.c0 ∧ 0 < s.flen
-  | .c0_grow => 0 < s.c0
-  | .rd_end => 0 < s.rd
-  | .x1 => 0 < s.x1 ∧ s.m1 = 0
-  | .x2_last => 0 < s.x2 ∧ s.readcount = 1
-  | .x2_more => 0 < s.x2 ∧ s.readcount ≠ 1
-  | .x3 => 0 < s.x3
-  | .x4 => 0 < s.x4
-  | .u1 => 0 < s.u1 ∧ s.m1 = 0
-  | .u2_last => 0 < s.u2 ∧ s.readcount = 1
-  | .u2_more => 0 < s.u2 ∧ s.readcount ≠ 1
-  | .u3 => 0 < s.u3
-  | .u4 => 0 < s.u4
-  | .w1 => 0 < s.w1 ∧ s.m2 = 0
-  | .w2_first => 0 < s.w2 ∧ s.writecount = 0
-  | .w2_more => 0 < s.w2 ∧ s.writecount ≠ 0
-  | .w3 => 0 < s.w3 ∧ s.r = 0
-  | .w4 => 0 < s.w4
-  | .w5 => 0 < s.w5 ∧ s.w = 0
-  | .c1_pass len => 0 < s.c1 ∧ s.flen < len
-  | .c1_fail => 0 < s.c1 ∧ 0 < s.flen
-  | .store len => 0 < s.b0 ∧ len ∈ s.pend
-  | .build len => 0 < s.wt ∧ len ∈ s.wtl
-  | .y1 => 0 < s.y1
-  | .y2 => 0 < s.y2 ∧ s.m2 = 0
-  | .y3_last => 0 < s.y3 ∧ s.writecount = 1
-  | .y3_more => 0 < s.y3 ∧ s.writecount ≠ 1
-  | .y4 => 0 < s.y4
-  | .y5 => 0 < s.y5
-  | .d1 => 0 < s.d1
-  | .d2 => 0 < s.d2 ∧ s.m2 = 0
-  | .d3_last => 0 < s.d3 ∧ s.writecount = 1
-  | .d3_more => 0 < s.d3 ∧ s.writecount ≠ 1
-  | .d4 => 0 < s.d4
-  | .d5 => 0 < s.d5
-  | .e1 => 0 < s.e1 ∧ s.m3 = 0
-  | .e2 => 0 < s.e2 ∧ s.r = 0
-  | .e3 => 0 < s.e3 ∧ s.m1 = 0
-  | .e4_first => 0 < s.e4 ∧ s.readcount = 0
-  | .e4_more => 0 < s.e4 ∧ s.readcount ≠ 0
-  | .e5 => 0 < s.e5 ∧ s.w = 0
-  | .e6 => 0 < s.e6
-  | .e7 => 0 < s.e7
-  | .e8 => 0 < s.e8
-  | .c2_go => 0 < s.c2
+  | .i0_warm => 0 ≤ s.flen
+  | .i0_cold => s.flen < 0
+  | .r1 => s.m3 = 0
+  | .r2 => s.r = 0
+  | .r3 => s.m1 = 0
+  | .r4_first => s.readcount = 0
+  | .r4_more => s.readcount ≠ 0
+  | .r5 => s.w = 0
+  | .c0_ok => 0 < s.flen
+  | .x1 => s.m1 = 0
+  | .x2_last => s.readcount = 1
+  | .x2_more => s.readcount ≠ 1
+  | .u1 => s.m1 = 0
+  | .u2_last => s.readcount = 1
+  | .u2_more => s.readcount ≠ 1
+  | .w1 => s.m2 = 0
+  | .w2_first => s.writecount = 0
+  | .w2_more => s.writecount ≠ 0
+  | .w3 => s.r = 0
+  | .w5 => s.w = 0
+  | .c1_pass len => s.flen < len
+  | .c1_fail => 0 < s.flen
+  | .store len => len ∈ s.pend
+  | .build len => len ∈ s.wtl
+  | .y2 => s.m2 = 0
+  | .y3_last => s.writecount = 1
+  | .y3_more => s.writecount ≠ 1
+  | .d2 => s.m2 = 0
+  | .d3_last => s.writecount = 1
+  | .d3_more => s.writecount ≠ 1
+  | .e1 => s.m3 = 0
+  | .e2 => s.r = 0
+  | .e3 => s.m1 = 0
+  | .e4_first => s.readcount = 0
+  | .e4_more => s.readcount ≠ 0
+  | .e5 => s.w = 0
+  | _ => True
 
-instance (l : Label) (s : St) : Decidable (guard l s) := by
-  cases l <;> (simp only [guard]; exact inferInstance)
+instance (l : Label) (s : St) : Decidable (guardX l s) := by
+  cases l <;> (simp only [guardX]; exact inferInstance)
 
-/-- effect of the step on the shared variables and on the counts -/
-def eff (l : Label) (s : St) : St :=
+/-- effect of the step on the shared variables -/
+def effX (l : Label) (s : St) : St :=
   match l with
-  | .call => { s with idle := s.idle - 1, i0 := s.i0 + 1 }
-  | .i0_warm => { s with i0 := s.i0 - 1, r1 := s.r1 + 1 }
-  | .i0_cold => { s with nInit := s.nInit + 1, i0 := s.i0 - 1, i1 := s.i1 + 1 }
-  | .ini1 => { s with m1 := 0, i1 := s.i1 - 1, i2 := s.i2 + 1 }
-  | .ini2 => { s with m2 := 0, i2 := s.i2 - 1, i3 := s.i3 + 1 }
-  | .ini3 => { s with m3 := 0, i3 := s.i3 - 1, i4 := s.i4 + 1 }
-  | .ini4 => { s with w := 0, i4 := s.i4 - 1, i5 := s.i5 + 1 }
-  | .ini5 => { s with r := 0, i5 := s.i5 - 1, i6 := s.i6 + 1 }
-  | .ini6 => { s with flen := 0, nReset := s.nReset + 1, i6 := s.i6 - 1, r1 := s.r1 + 1 }
-  | .r1 => { s with m3 := 1, r1 := s.r1 - 1, r2 := s.r2 + 1 }
-  | .r2 => { s with r := 1, r2 := s.r2 - 1, r3 := s.r3 + 1 }
-  | .r3 => { s with m1 := 1, r3 := s.r3 - 1, r4 := s.r4 + 1 }
-  | .r4_first => { s with readcount := 1, r4 := s.r4 - 1, r5 := s.r5 + 1 }
-  | .r4_more => { s with readcount := s.readcount + 1, r4 := s.r4 - 1, r6 := s.r6 + 1 }
-  | .r5 => { s with w := 1, gw := 1, r5 := s.r5 - 1, r6 := s.r6 + 1 }
-  | .r6 => { s with m1 := 0, r6 := s.r6 - 1, r7 := s.r7 + 1 }
-  | .r7 => { s with r := 0, r7 := s.r7 - 1, r8 := s.r8 + 1 }
-  | .r8 => { s with m3 := 0, r8 := s.r8 - 1, c0 := s.c0 + 1 }
-  | .c0_ok => { s with c0 := s.c0 - 1, rd := s.rd + 1 }
-  | .c0_grow => { s with c0 := s.c0 - 1, u1 := s.u1 + 1 }
-  | .rd_end => { s with rd := s.rd - 1, x1 := s.x1 + 1 }
-  | .x1 => { s with m1 := 1, x1 := s.x1 - 1, x2 := s.x2 + 1 }
-  | .x2_last => { s with readcount := 0, x2 := s.x2 - 1, x3 := s.x3 + 1 }
-  | .x2_more => { s with readcount := s.readcount - 1, x2 := s.x2 - 1, x4 := s.x4 + 1 }
-  | .x3 => { s with w := 0, gw := 0, x3 := s.x3 - 1, x4 := s.x4 + 1 }
-  | .x4 => { s with m1 := 0, x4 := s.x4 - 1, idle := s.idle + 1 }
-  | .u1 => { s with m1 := 1, u1 := s.u1 - 1, u2 := s.u2 + 1 }
-  | .u2_last => { s with readcount := 0, u2 := s.u2 - 1, u3 := s.u3 + 1 }
-  | .u2_more => { s with readcount := s.readcount - 1, u2 := s.u2 - 1, u4 := s.u4 + 1 }
-  | .u3 => { s with w := 0, gw := 0, u3 := s.u3 - 1, u4 := s.u4 + 1 }
-  | .u4 => { s with m1 := 0, u4 := s.u4 - 1, w1 := s.w1 + 1 }
-  | .w1 => { s with m2 := 1, w1 := s.w1 - 1, w2 := s.w2 + 1 }
-  | .w2_first => { s with writecount := 1, w2 := s.w2 - 1, w3 := s.w3 + 1 }
-  | .w2_more => { s with writecount := s.writecount + 1, w2 := s.w2 - 1, w4 := s.w4 + 1 }
-  | .w3 => { s with r := 1, gr := 1, w3 := s.w3 - 1, w4 := s.w4 + 1 }
-  | .w4 => { s with m2 := 0, w4 := s.w4 - 1, w5 := s.w5 + 1 }
-  | .w5 => { s with w := 1, w5 := s.w5 - 1, c1 := s.c1 + 1 }
-  | .c1_pass len => { s with pend := len :: s.pend, c1 := s.c1 - 1, b0 := s.b0 + 1 }
-  | .c1_fail => { s with c1 := s.c1 - 1, d1 := s.d1 + 1 }
-  | .store len => { s with flen := len, tab := if s.flen = 0 then 0 else s.tab, pend := s.pend.erase len, wtl := len :: s.wtl, nStore := s.nStore + 1, b0 := s.b0 - 1, wt := s.wt + 1 }
-  | .build len => { s with tab := if s.tab < len then len else s.tab, wtl := s.wtl.erase len, wt := s.wt - 1, y1 := s.y1 + 1 }
-  | .y1 => { s with w := 0, y1 := s.y1 - 1, y2 := s.y2 + 1 }
-  | .y2 => { s with m2 := 1, y2 := s.y2 - 1, y3 := s.y3 + 1 }
-  | .y3_last => { s with writecount := 0, y3 := s.y3 - 1, y4 := s.y4 + 1 }
-  | .y3_more => { s with writecount := s.writecount - 1, y3 := s.y3 - 1, y5 := s.y5 + 1 }
-  | .y4 => { s with r := 0, gr := 0, y4 := s.y4 - 1, y5 := s.y5 + 1 }
-  | .y5 => { s with m2 := 0, y5 := s.y5 - 1, idle := s.idle + 1 }
-  | .d1 => { s with w := 0, d1 := s.d1 - 1, d2 := s.d2 + 1 }
-  | .d2 => { s with m2 := 1, d2 := s.d2 - 1, d3 := s.d3 + 1 }
-  | .d3_last => { s with writecount := 0, d3 := s.d3 - 1, d4 := s.d4 + 1 }
-  | .d3_more => { s with writecount := s.writecount - 1, d3 := s.d3 - 1, d5 := s.d5 + 1 }
-  | .d4 => { s with r := 0, gr := 0, d4 := s.d4 - 1, d5 := s.d5 + 1 }
-  | .d5 => { s with m2 := 0, d5 := s.d5 - 1, e1 := s.e1 + 1 }
-  | .e1 => { s with m3 := 1, e1 := s.e1 - 1, e2 := s.e2 + 1 }
-  | .e2 => { s with r := 1, e2 := s.e2 - 1, e3 := s.e3 + 1 }
-  | .e3 => { s with m1 := 1, e3 := s.e3 - 1, e4 := s.e4 + 1 }
-  | .e4_first => { s with readcount := 1, e4 := s.e4 - 1, e5 := s.e5 + 1 }
-  | .e4_more => { s with readcount := s.readcount + 1, e4 := s.e4 - 1, e6 := s.e6 + 1 }
-  | .e5 => { s with w := 1, gw := 1, e5 := s.e5 - 1, e6 := s.e6 + 1 }
-  | .e6 => { s with m1 := 0, e6 := s.e6 - 1, e7 := s.e7 + 1 }
-  | .e7 => { s with r := 0, e7 := s.e7 - 1, e8 := s.e8 + 1 }
-  | .e8 => { s with m3 := 0, e8 := s.e8 - 1, c2 := s.c2 + 1 }
-  | .c2_go => { s with c2 := s.c2 - 1, rd := s.rd + 1 }
+  | .i0_cold => { s with nInit := s.nInit + 1 }
+  | .ini1 => { s with m1 := 0 }
+  | .ini2 => { s with m2 := 0 }
+  | .ini3 => { s with m3 := 0 }
+  | .ini4 => { s with w := 0 }
+  | .ini5 => { s with r := 0 }
+  | .ini6 => { s with flen := 0, nReset := s.nReset + 1 }
+  | .r1 => { s with m3 := 1 }
+  | .r2 => { s with r := 1 }
+  | .r3 => { s with m1 := 1 }
+  | .r4_first => { s with readcount := 1 }
+  | .r4_more => { s with readcount := s.readcount + 1 }
+  | .r5 => { s with w := 1, gw := 1 }
+  | .r6 => { s with m1 := 0 }
+  | .r7 => { s with r := 0 }
+  | .r8 => { s with m3 := 0 }
+  | .x1 => { s with m1 := 1 }
+  | .x2_last => { s with readcount := 0 }
+  | .x2_more => { s with readcount := s.readcount - 1 }
+  | .x3 => { s with w := 0, gw := 0 }
+  | .x4 => { s with m1 := 0 }
+  | .u1 => { s with m1 := 1 }
+  | .u2_last => { s with readcount := 0 }
+  | .u2_more => { s with readcount := s.readcount - 1 }
+  | .u3 => { s with w := 0, gw := 0 }
+  | .u4 => { s with m1 := 0 }
+  | .w1 => { s with m2 := 1 }
+  | .w2_first => { s with writecount := 1 }
+  | .w2_more => { s with writecount := s.writecount + 1 }
+  | .w3 => { s with r := 1, gr := 1 }
+  | .w4 => { s with m2 := 0 }
+  | .w5 => { s with w := 1 }
+  | .c1_pass len => { s with pend := len :: s.pend }
+  | .store len => { s with flen := len, tab := if s.flen = 0 then 0 else s.tab, pend := s.pend.erase len, wtl := len :: s.wtl, nStore := s.nStore + 1 }
+  | .build len => { s with tab := if s.tab < len then len else s.tab, wtl := s.wtl.erase len }
+  | .y1 => { s with w := 0 }
+  | .y2 => { s with m2 := 1 }
+  | .y3_last => { s with writecount := 0 }
+  | .y3_more => { s with writecount := s.writecount - 1 }
+  | .y4 => { s with r := 0, gr := 0 }
+  | .y5 => { s with m2 := 0 }
+  | .d1 => { s with w := 0 }
+  | .d2 => { s with m2 := 1 }
+  | .d3_last => { s with writecount := 0 }
+  | .d3_more => { s with writecount := s.writecount - 1 }
+  | .d4 => { s with r := 0, gr := 0 }
+  | .d5 => { s with m2 := 0 }
+  | .e1 => { s with m3 := 1 }
+  | .e2 => { s with r := 1 }
+  | .e3 => { s with m1 := 1 }
+  | .e4_first => { s with readcount := 1 }
+  | .e4_more => { s with readcount := s.readcount + 1 }
+  | .e5 => { s with w := 1, gw := 1 }
+  | .e6 => { s with m1 := 0 }
+  | .e7 => { s with r := 0 }
+  | .e8 => { s with m3 := 0 }
+  | _ => s
+/-- move one thread from point `a` to point `b` -/
+def move (f : Pc → Nat) (a b : Pc) (p : Pc) : Nat :=
+  if p = a then f p - 1 else if p = b then f p + 1 else f p
+
+/-- enabling condition: some thread is at the source point, and the C condition / semaphore allows the step -/
+def guard (l : Label) (s : St) : Prop := 0 < s.cnt l.src ∧ guardX l s
+
+instance (l : Label) (s : St) : Decidable (guard l s) := by unfold guard; exact inferInstance
+
+/-- effect of the step -/
+def eff (l : Label) (s : St) : St := { effX l s with cnt := move s.cnt l.src l.dst }
+
 /-- the executable step function (what `soxr_conc` runs against the real traces) -/
 def fire (l : Label) (s : St) : Option St := if guard l s then some (eff l s) else none
 
 /-- one atomic step of some thread -/
 def Step (s t : St) : Prop := ∃ l, fire l s = some t
 
-/-- serial-initialisation hypothesis on a step: a thread passes the test `FFT_LEN >= 0` negatively (enters the
-    initialiser) only when no other thread is inside the initialiser -/
-def St.inInit (s : St) : Nat := s.i1 + s.i2 + s.i3 + s.i4 + s.i5 + s.i6
+/-- number of threads at the points of a list -/
+def sumL (f : Pc → Nat) : List Pc → Nat
+  | [] => 0
+  | p :: ps => f p + sumL f ps
 
+/-- number of threads at the points of a list, in a state -/
+abbrev St.num (s : St) (L : List Pc) : Nat := sumL s.cnt L
+
+/-! Sets of program points the theorems and the invariant speak about. -/
+/-- inside the unguarded initialiser (test failed, `FFT_LEN = 0` not yet stored) -/
+def inInitS : List Pc := [.i1, .i2, .i3, .i4, .i5, .i6]
+/-- holding the writer role: from P(w) in `become_writer` until V(w) in `cease_writing` -/
+def writersS : List Pc := [.c1, .b0, .wt, .y1, .d1]
+/-- holding the reader role: counted in `readcount` while the reader group holds `w` -/
+def readersS : List Pc := [.r6, .r7, .r8, .c0, .rd, .x1, .x2, .u1, .u2, .e6, .e7, .e8, .c2]
+/-- re-allocating (`b0`) or rebuilding (`wt`) the tables -/
+def rebuildingS : List Pc := [.b0, .wt]
+/-- inside a transform that only reads the tables -/
+def readingS : List Pc := [.rd]
+/-- every program point -/
+def allS : List Pc :=
+  [.idle, .i0, .i1, .i2, .i3, .i4, .i5, .i6, .r1, .r2, .r3, .r4, .r5, .r6, .r7, .r8, .c0, .rd, .x1, .x2, .x3, .x4,
+   .u1, .u2, .u3, .u4, .w1, .w2, .w3, .w4, .w5, .c1, .b0, .wt, .y1, .y2, .y3, .y4, .y5, .d1, .d2, .d3, .d4, .d5,
+   .e1, .e2, .e3, .e4, .e5, .e6, .e7, .e8, .c2]
+
+def St.inInit (s : St) : Nat := s.num inInitS
+def St.writersIn (s : St) : Nat := s.num writersS
+def St.readersIn (s : St) : Nat := s.num readersS
+def St.rebuilding (s : St) : Nat := s.num rebuildingS
+def St.reading (s : St) : Nat := s.num readingS
+def St.threads (s : St) : Nat := s.num allS
+
+/-- a step that respects the serial-initialisation hypothesis: a thread passes the test `FFT_LEN >= 0` negatively (enters
+    the initialiser) only while no other thread is inside the initialiser -/
 def StepS (s t : St) : Prop := ∃ l, fire l s = some t ∧ (l = .i0_cold → s.inInit = 0)
 
 /-- states reachable from `s0` under every interleaving -/
@@ -635,41 +576,17 @@ theorem ReachableS.toReachable {s0 s : St} (h : ReachableS s0 s) : Reachable s0 
   | init => exact .init
   | step _ st ih => exact .step ih (st.elim fun l hl => ⟨l, hl.1⟩)
 
-/-- everything zero -/
-def zero : St :=
-  { m1 := 0, m2 := 0, m3 := 0, w := 0, r := 0, readcount := 0, writecount := 0, flen := 0, tab := 0, gw := 0, gr := 0,
-    nInit := 0, nReset := 0, nStore := 0, pend := [], wtl := [],
-    idle := 0, i0 := 0, i1 := 0, i2 := 0, i3 := 0, i4 := 0, i5 := 0, i6 := 0, r1 := 0, r2 := 0, r3 := 0, r4 := 0,
-    r5 := 0, r6 := 0, r7 := 0, r8 := 0, c0 := 0, rd := 0, x1 := 0, x2 := 0, x3 := 0, x4 := 0, u1 := 0, u2 := 0,
-    u3 := 0, u4 := 0, w1 := 0, w2 := 0, w3 := 0, w4 := 0, w5 := 0, c1 := 0, b0 := 0, wt := 0, y1 := 0, y2 := 0,
-    y3 := 0, y4 := 0, y5 := 0, d1 := 0, d2 := 0, d3 := 0, d4 := 0, d5 := 0, e1 := 0, e2 := 0, e3 := 0, e4 := 0,
-    e5 := 0, e6 := 0, e7 := 0, e8 := 0, c2 := 0 }
+/-- all shared variables zero, `n` threads outside the library -/
+def zero (n : Nat) : St :=
+  { cnt := fun p => if p = .idle then n else 0,
+    m1 := 0, m2 := 0, m3 := 0, w := 0, r := 0, readcount := 0, writecount := 0, flen := 0, tab := 0, gw := 0, gr := 0,
+    nInit := 0, nReset := 0, nStore := 0, pend := [], wtl := [] }
 
 /-- process start: `FFT_LEN = -1`, static storage zeroed, `n` threads that have not called the library yet -/
-def cold (n : Nat) : St := { zero with flen := -1, idle := n }
+def cold (n : Nat) : St := { zero n with flen := -1 }
 
 /-- the state right after one complete, undisturbed `LSX_INIT_FFT_CACHE` (`FFT_LEN = 0`, no tables yet), `n` threads outside -/
-def warm (n : Nat) : St := { zero with idle := n, nInit := 1, nReset := 1 }
-
-/-- threads holding the writer role (from P(w) in `become_writer` until V(w) in `cease_writing`) -/
-def St.writersIn (s : St) : Nat := s.c1 + s.b0 + s.wt + s.y1 + s.d1
-
-/-- threads holding the reader role (`readcount` counts them and the group holds `w`) -/
-def St.readersIn (s : St) : Nat :=
-  s.r6 + s.r7 + s.r8 + s.c0 + s.rd + s.x1 + s.x2 + s.u1 + s.u2 + s.e6 + s.e7 + s.e8 + s.c2
-
-/-- threads that are re-allocating / rebuilding the tables -/
-def St.rebuilding (s : St) : Nat := s.b0 + s.wt
-
-/-- threads inside a transform that only reads the tables -/
-def St.reading (s : St) : Nat := s.rd
-
-/-- total number of threads -/
-def St.threads (s : St) : Nat :=
-  s.idle + s.i0 + s.inInit + (s.r1 + s.r2 + s.r3 + s.r4 + s.r5 + s.r6 + s.r7 + s.r8) + s.c0 + s.rd +
-  (s.x1 + s.x2 + s.x3 + s.x4) + (s.u1 + s.u2 + s.u3 + s.u4) + (s.w1 + s.w2 + s.w3 + s.w4 + s.w5) + s.c1 + s.b0 + s.wt +
-  (s.y1 + s.y2 + s.y3 + s.y4 + s.y5) + (s.d1 + s.d2 + s.d3 + s.d4 + s.d5) +
-  (s.e1 + s.e2 + s.e3 + s.e4 + s.e5 + s.e6 + s.e7 + s.e8) + s.c2
+def warm (n : Nat) : St := { zero n with nInit := 1, nReset := 1 }
 
 /-- run a list of labels -/
 def run : List Label → St → Option St
@@ -685,6 +602,14 @@ theorem run_reachable {s0 : St} : ∀ (ls : List Label) (s t : St), Reachable s0
     | some u =>
       simp only [hf, Option.bind_some] at e
       exact run_reachable ls u t (.step h ⟨l, hf⟩) e
+
+/-- index of a program point in `allS` (driver: snapshot of the count function) -/
+def Pc.idx (p : Pc) : Nat := allS.idxOf p
+
+/-- extensionally the same state with the count function tabulated (keeps the driver's closures flat) -/
+def St.compact (s : St) : St :=
+  let a : Array Nat := (allS.map s.cnt).toArray
+  { s with cnt := fun p => a.getD p.idx 0 }
 
 /-- all labels, with a given parameter for the three that carry `len` (used by the driver to look labels up by
     source point / visible action) -/
